@@ -154,7 +154,7 @@ func (vfs *MemFS) Chown(name string, uid, gid int) error {
 func (vfs *MemFS) Chtimes(name string, _, mtime time.Time) error {
 	const op = "chtimes"
 
-	_, child, _, err := vfs.searchNode(name, slmLstat)
+	_, child, _, err := vfs.searchNode(name, slmStat)
 	if err != vfs.err.FileExists || child == nil {
 		return &fs.PathError{Op: op, Path: name, Err: err}
 	}
